@@ -9,6 +9,8 @@ identifier).  Semicolons the lexer synthesised (observed through a hook on
 ``_create_semi_token``) are the only exemption.
 """
 
+import re
+
 from vk.boot import HarnessBroken
 from vk import work, printing, probe
 from vk.gen import jsgen
@@ -161,6 +163,17 @@ def run_fragments(ctx, fragments, sources, default_source, key, origin, sample_t
     return viol
 
 
+_UESC = re.compile(r'\\u([0-9a-fA-F]{4})')
+
+
+def _decode_names(c):
+    if isinstance(c, str):
+        return _UESC.sub(lambda m: chr(int(m.group(1), 16)), c) if '\\u' in c else c
+    if isinstance(c, (tuple, list)):
+        return tuple(_decode_names(x) for x in c)
+    return c
+
+
 def parse_source(ctx, synth, path, text, with_comments):
     synth.pos = set()
     try:
@@ -173,9 +186,15 @@ def parse_source(ctx, synth, path, text, with_comments):
     src = Source(path, text, synth.pos)
     if src.res is not None:
         from vk import tree as vtree
-        if vtree.canon_impl(tree) != refjs.canon(src.res.tree):
-            ctx.count('skipped:tree_disagreement')     # C03's to report
-            return None, None
+        a, b = vtree.canon_impl(tree), refjs.canon(src.res.tree)
+        if a != b:
+            # C03's to report.  One disagreement still leaves this statement decidable: the same tree up to the
+            # spelling of names (a name stored decoded, 'abc' for a written '\u0061bc'): the fragments then claim
+            # a token the source does not have there
+            if _decode_names(a) != _decode_names(b):
+                ctx.count('skipped:tree_disagreement')
+                return None, None
+            ctx.count('tree_agrees_up_to_escape_spelling')
     return tree, src
 
 
